@@ -12,7 +12,8 @@ EXPLANATION = ("Meshes with symbolic real coordinates (and symbolic translation 
                "(so a vertex moved twice, or an input moved together with an output, is a counterexample for all parameter "
                "values, not for sampled ones).")
 BOUNDS = {
-    "quick": "meshes of 3-4 vertices (one/two triangles, a 2-edge polyline, one tetrahedron), the open ring with N=3; sequences of <=2 "
+    "quick": "concrete-coordinate histories (copy / merge / boundary extraction / reorder, then translate by a vector or by one of the mesh's "
+             "own vertices); meshes of 3-4 vertices (one/two triangles, a 2-edge polyline, one tetrahedron), the open ring with N=3; sequences of <=2 "
              "calls among copy / merge / translate / scale / normalize, followed by one edit (assign a vertex, edit a coordinate in "
              "place, append an element) on one of the objects",
     "thorough": "adds 3-call sequences and scale_xyz / translate_to_origin / fit_into_unit_cube",
@@ -84,6 +85,9 @@ def make(sx, producer, topo, prefix="p"):
         a, _, Pa = make(sx, "literal", topo, prefix + "a")
         b, _, Pb = make(sx, "literal", "tri", prefix + "b")
         return M.mesh.merge([a, b]), [(a, Pa), (b, Pb)], Pa + Pb
+    if producer == "merge-one":
+        src, _, P = make(sx, "literal", topo, prefix)
+        return M.mesh.merge([src]), [(src, P)], P
     if producer == "ring-open":
         from mouette.procedural import rings
         m = rings.ring(3, 0.5, open=True)
@@ -256,9 +260,66 @@ def edits(producers, topos):
     return h
 
 
+def concrete_histories(sx):
+    """ownership / aliasing of the stored float arrays: coordinates are concrete floats here (dtype- and ownership-dependent code
+    paths do not exist for object arrays); the history - how the second mesh is derived, which mesh is translated, by what - is
+    symbolic"""
+    import mouette as M
+    from mouette.geometry import transform as T
+    from mouette.processing.border import extract_boundary_of_surface
+    V, E, F, C = TOPO["tri2"]
+    P = [list(p) for p in meshgen.generic_coords(V)]
+    base = meshgen.build([np.array(p, dtype=float) for p in P], E, F, C)
+    first = ["none", "copy", "copy-attributes"][sx.choice("first_step", 3)]
+    m1 = base if first == "none" else M.mesh.copy(base, copy_attributes=(first == "copy-attributes"))
+    derive = ["none", "copy", "merge-one", "merge-self", "boundary", "reorder"][sx.choice("derive", 6)]
+    if derive == "none":
+        m2, idx = None, None
+    elif derive == "copy":
+        m2, idx = M.mesh.copy(m1), list(range(V))
+    elif derive == "merge-one":
+        m2, idx = M.mesh.merge([m1]), list(range(V))
+    elif derive == "merge-self":
+        m2, idx = M.mesh.merge([m1, m1]), list(range(V)) * 2
+    elif derive == "boundary":
+        m2, vmap = extract_boundary_of_surface(m1)
+        inv = {b: a for a, b in vmap.items()}
+        idx = [inv[i] for i in range(len(m2.vertices))]
+    else:
+        perm = [1, 0, 3, 2]
+        from mouette.mesh.mesh import reorder_vertices
+        m2 = reorder_vertices(m1, perm)
+        idx = perm
+    target_is_m2 = m2 is not None and sx.flag("translate_the_derived_mesh")
+    tgt = m2 if target_is_m2 else m1
+    other = m1 if target_is_m2 else m2
+    own = sx.flag("translate_by_a_vertex_of_the_mesh")
+    k = sx.choice("vertex", len(tgt.vertices))
+    t = tgt.vertices[k] if own else np.array([0.25, -1.5, 3.0])
+    t_old = [float(x) for x in t]
+    before_t = [[float(x) for x in p] for p in tgt.vertices]
+    before_o = None if other is None else [[float(x) for x in p] for p in other.vertices]
+    before_b = [[float(x) for x in p] for p in base.vertices]
+    tag = " [first=%s, derived by %s, %s translated by %s]" % (first, derive, "derived mesh" if target_is_m2 else "first mesh",
+                                                             "one of its own vertices" if own else "a vector")
+    try:
+        T.translate(tgt, t)
+    except Exception as e:
+        sx.check(False, "translate raised" + tag, detail=repr(e))
+        return
+    want = [[p[j] + t_old[j] for j in range(3)] for p in before_t]
+    got = [[float(x) for x in p] for p in tgt.vertices]
+    sx.check(got == want, "translate moves every vertex exactly once by exactly the requested vector" + tag, detail="%s vs %s" % (got[:2], want[:2]))
+    if other is not None:
+        sx.check([[float(x) for x in p] for p in other.vertices] == before_o,
+                 "translating a mesh leaves every other mesh (the one it was derived from / derived from it) unchanged" + tag)
+    if tgt is not base:
+        sx.check([[float(x) for x in p] for p in base.vertices] == before_b, "translating a derived mesh leaves the original mesh unchanged" + tag)
+
+
 def obligations(tier):
     q = tier == "quick"
-    prods = ["literal", "from_arrays", "copy", "merge-self", "merge-two", "ring-open", "boundary"]
+    prods = ["literal", "from_arrays", "copy", "merge-one", "merge-self", "merge-two", "ring-open", "boundary"]
     more = [] if q else ["scale_xyz", "translate_to_origin"]
     obs = [
         Ob("transform-alias", transforms(prods, ["tri"], ["translate", "scale"] + more), covers=COVERS, split=5,
@@ -267,7 +328,9 @@ def obligations(tier):
            note="normalize on a triangle with symbolic coordinates (every ordering of the coordinates)"),
         Ob("transform-mixed", transforms(["literal", "merge-self"], ["poly", "tet"] if q else ["poly", "tet", "tri2"], ["translate", "scale"]),
            covers=COVERS, split=5, note="polyline / tetrahedron inputs"),
-        Ob("edits", edits(["copy", "merge-self", "merge-two"], ["tri"] if q else ["tri", "tri2", "tet"]), covers=COVERS, split=6,
+        Ob("concrete-histories", concrete_histories, covers=COVERS, split=4,
+           note="float-array ownership/aliasing: copy / merge / boundary / reorder then translate by a vector or by one of the mesh's own vertices"),
+        Ob("edits", edits(["copy", "merge-one", "merge-self", "merge-two"], ["tri"] if q else ["tri", "tri2", "tet"]), covers=COVERS, split=6,
            note="editing one side of a copy/merge never shows on the other"),
     ]
     if not q:
